@@ -13,7 +13,7 @@ from hypothesis import strategies as st
 
 from checks.c03_negotiation import apply_item, config_case
 from vlib import vloop
-from vlib.pcsim import EventLog, make_pc, run_pc_sim, wait_for
+from vlib.pcsim import DecoderTap, EventLog, ThreadRegistry, make_pc, run_pc_sim, wait_for
 from vlib.runner import Check, Family, Outcome
 
 PREFIXES = ["nothing", "offer-created", "offer-applied", "offer-received", "negotiated", "connected", "remote-closed"]
@@ -32,11 +32,15 @@ def close_case(draw, tier="quick"):
             "k_other": draw(st.one_of(st.none(), st.none(), kk)),
             "again": draw(st.sampled_from([None, None, 0, 5, 200])),
             # a second close() on the same side that many loop handles after the first one started (overlapping it)
+            # a decoder that is still working on its first frames (60 ms of real time per thread) when things happen
+            "busy_decoder": draw(st.sampled_from([False, False, False, False, True])),
             "k_same": draw(st.one_of(st.none(), st.none(), st.integers(1, 5), st.integers(1, 60))),
             "yields": draw(st.integers(0, 3)),
             # things an application may do on the way: stop one transceiver, start a second negotiation round
-            "extras": draw(st.lists(st.tuples(st.sampled_from(["stop-transceiver", "reoffer", "reoffer", "peer-goes-away"]), st.integers(1, 6), st.integers(0, 1)).map(list),
-                                    max_size=2)),
+            "extras": draw(st.lists(st.one_of(
+                st.tuples(st.sampled_from(["stop-transceiver", "reoffer", "reoffer"]), st.integers(1, 6), st.integers(0, 1)).map(list),
+                st.tuples(st.sampled_from(["peer-goes-away", "peer-dtls-closes"]), st.sampled_from([4, 5, 6, 6]), st.integers(0, 1)).map(list)),
+                max_size=2)),
             # a quarter of the cases over a path whose datagram send suspends (TURN relay): more interleavings inside
             # every coroutine that sends
             "yield_send": draw(st.sampled_from([False, False, False, True]))}
@@ -55,6 +59,7 @@ class Scenario:
         self.in_call = None  # the negotiation call the driver is inside of
         self.driver_errors: list = []
         self.handles_at_end = 0
+        self.threads = ThreadRegistry()
 
     def fail(self, kind: str, msg: str) -> None:
         if self.problem is None:
@@ -103,6 +108,11 @@ class Scenario:
             return
         self.watch_all(idx)
         self.close_done[idx] = loop.time() - t0
+        # "no dedicated thread started by the connection is left running": judged at the moment close() returns
+        alive = [t.name for t in self.threads.of_connection(pc) if t.is_alive()]
+        if alive:
+            self.fail("thread-left-running-at-return", f"pc {idx}: close() returned while its decoder thread(s) {alive} were still running "
+                                                       f"(close() started in state {self.close_started_state[idx]})")
 
     def inject(self, idx: int, loop: vloop.VLoop) -> None:
         if idx in self.close_tasks or idx >= len(self.pcs):
@@ -170,6 +180,16 @@ class Scenario:
                     self.classes.add("peer-goes-away")
                     self.inject(1, loop)
                     await asyncio.sleep(0)
+                elif ex[0] == "peer-dtls-closes" and at >= 5:
+                    # the other side vanishes the way a browser tab does: a DTLS close_notify and nothing else (no RTCP BYE,
+                    # no SCTP shutdown)
+                    self.classes.add("peer-dtls-closes")
+                    for t in list(getattr(pc, "_RTCPeerConnection__dtlsTransports", [])):
+                        try:
+                            await t.stop()
+                        except Exception:
+                            pass
+                    await asyncio.sleep(0.05)
                 elif ex[0] == "reoffer" and (at >= 5 or pc is self.pcs[0]) and pc.signalingState in ("stable", "have-local-offer") \
                         and self.pcs.index(pc) not in self.close_tasks:
                     self.classes.add("reoffer")
@@ -349,7 +369,8 @@ class Scenario:
 def run_close(case: dict) -> Outcome:
     sc = Scenario(case)
     try:
-        run_pc_sim(sc.main, max_iterations=3_000_000, cpu_seconds=60, yield_send=bool(case.get("yield_send")))
+        run_pc_sim(sc.main, max_iterations=3_000_000, cpu_seconds=60, yield_send=bool(case.get("yield_send")), threads=sc.threads,
+                   tap=DecoderTap(busy_ms=60 if case.get("busy_decoder") else 0))
     except vloop.CpuBudgetExceeded:
         return Outcome(f"a busy loop: 60 s of CPU without the scenario finishing (close() started in state {sc.close_started_state})",
                        "busy-loop", True, tuple(sorted(sc.classes)))
